@@ -126,7 +126,10 @@ def run_unit(u, repo=None, keep_trace=True):
         if u.enforce:
             cmd += ["--enforce-contract", u.enforce]
         for r in u.replace:
-            cmd += ["--replace-call-with-contract", r]
+            # a callee that the (possibly edited) body no longer calls is dropped by goto-cc and
+            # would crash goto-instrument; it then needs no replacement
+            if len(re.findall(r"\b%s\s*\(" % re.escape(r), src)) >= 2:
+                cmd += ["--replace-call-with-contract", r]
         if u.loop_contracts:
             cmd += ["--apply-loop-contracts"]
         cmd += [gb0, gb1]
